@@ -300,7 +300,10 @@ pub fn c16_step(cx: &StepCtx<'_, impl Sized>, info: &InputInfo, st: &mut C16Stat
             hh.record_calls = true;
             let mut rx = new_foca(*to, cfg, *codec, hh);
             let o = run_event(&mut rx, &Ev::Data(d.clone()), &[]);
-            if !o.res.is_ok() {
+            // (a relayed request that names its own recipient as the third
+            // party comes from a nonsensical input of the alphabet, a sender
+            // asking to be probed through itself: its rejection is correct)
+            if !o.res.is_ok() && o.res != Res::Err(ErrKind::IndirectForOurselves) {
                 return Err(viol("c16:receiver-rejected", format!("a fresh peer {} rejected {} with {:?}", to.show(), show_dgram(codec, d), o.res)));
             }
             let calls = &rx.verif_handler().calls;
